@@ -71,7 +71,7 @@ CLAIMED = {
          "Trusted: Lean kernel; binary32 semantics as stated; planes = channels = 1; detsched + mock driver for the pipeline level. Known finding: windows with k*max|sample| >= 2^24 (known_findings.json).",
          "DESIGN.md section 5, C10"),
  "C04": ("lean-runtime", "Lean 4 theorems over M1 (thread model over the channel model with ghost records of delivered / committed / stored frames): three invariants proved for every action of every thread and lifted to every state of every schedule — DUse (sink.in is only ever used within channel.c's rules, thread bookkeeping = channel view), DLog (the storage log is exactly the frames committed at stream positions [base, appended), consecutive reads select consecutive frames), DId (the frames committed since the storage start are the camera's frames 0..n-1 of the run, none after a refused commit); corollary: stored = camera frames 0..m-1 in order with ids, hardware ids, run unchanged, for every client program incl. monitoring, abort, storage faults, any ring size; tie: decision-by-decision co-simulation of the real runtime (acquire.c, source.c, filter.c, sink.c, channel.c, vfslice.c, HAL) on detsched with the mock driver against the compiled model (state digests incl. channel cursors and reader holds), storage-side oracle comparing appended frames (ids, order, payload) with what the camera delivered, classes single/two/mon/slowmon/restart/delay/abort/stofault/camempty",
-         "Safety (order, no duplication, no mixing, bit-exactness as frame identity, prefix) machine-checked for all schedules/programs/ring sizes of M1 for streams without scripted camera faults; completeness is machine-checked as a safety statement (DEnd/DFin: once the sink has drained an undisturbed run the log is exactly frames 0..N-1); that the sink reaches that point is liveness, decided by the implementation-side count and hang oracles over explored schedules (partial: needs fairness).",
+         "Safety (order, no duplication, no mixing, bit-exactness as frame identity, prefix) machine-checked for all schedules/programs/ring sizes of M1, scripted camera and storage faults and cameras that hand out empty frames included (premise: the client keeps the map/unmap rule); completeness is machine-checked as a safety statement (DEnd/DFin: once the sink has drained an undisturbed run the log is exactly frames 0..N-1); that the sink reaches that point is liveness, decided by the implementation-side count and hang oracles over explored schedules (partial: needs fairness).",
          "Trusted: Lean kernel; detsched; mock driver (pixels = function of run and hardware id); frame identity stands for pixel bytes; M1 granularity validated by co-simulation; write delay and averaging paths explored on the implementation only; the ghost `clean` (sink reader caught up at start) holds after every stop/abort.",
          "DESIGN.md section 5, C04"),
  "C06": ("lean-runtime", "Lean 4 theorems over M1: in every reachable state sink.in comes from a well-formed history of channel.c (DUse), hence by C01/C02 the monitor reader (reader 1) has consumed exactly stream positions join..idx-1 in order, its mapped region holds its next bytes, its status stays Ok; DMon: a registered monitor flushed by stop/abort has nothing unread until the next source thread exists, a monitor registered and caught up at storage start never sees bytes committed before it; with DId the frames it then sees are the current run's 0,1,2,…; storage independent of the client (C04 theorems quantify over all client programs); tie: co-simulation of the real runtime incl. acquire_map_read/unmap_read and the flush in acquire_stop against the model; client-side oracle on every consumed frame (consecutive ids, payload of the current camera run, alignment, whole frames) over classes mon/slowmon/holdmon/abortmon/latemon/avgmon",
